@@ -8,13 +8,14 @@
 -/
 import Lumina.Gen.C07
 import Lumina.Proofs.BefpSound
+import Lumina.Proofs.BefpComplete
 import Lumina.Spec.C07
 
 namespace Lumina.Props.C07
 open Lumina.Util Lumina.Model.Nmt Lumina.Model.Eds Lumina.Model.EdsCode Lumina.Model.Befp
 open Lumina.Model.Decoders (Befp ShareWithProof)
 open Lumina.Proofs.Nmt Lumina.Proofs.EdsCode Lumina.Proofs.EdsExtend Lumina.Proofs.EdsLinear Lumina.Proofs.EdsCodeword
-open Lumina.Proofs.Befp Lumina.Proofs.BefpSound
+open Lumina.Proofs.Befp Lumina.Proofs.BefpSound Lumina.Proofs.BefpComplete
 open Lumina.Spec.C07 (specValidate Obs)
 
 theorem consts_eq :
@@ -108,5 +109,37 @@ theorem befp_spec_sound {H : HashFn} (hk : HashOK H) (C : Codec) {ver : Nat} {X 
     | validation => simp [obsOf]
     | panic => simp [obsOf]
     | rangeProof e' => cases e' <;> simp [obsOf]
+
+/-- **Completeness.**  The header commits to a square accepted by `ExtendedDataSquare::new` (well-formed, but possibly
+    badly encoded) of width at most 256 (what the codec can re-encode).  If the indicated row/column is NOT a codeword,
+    every honest proof validates: the header's height, at least half of that axis' shares, each with the inclusion
+    proof `Sample::new` builds for its own position along whichever proof axis — every subset, every proof-axis mix,
+    every axis (upper/lower rows, left/right columns).  Idealised hash; of the codec only shapes are assumed (parity
+    shards not shorter than a namespace, the decoder returns as many shards as it was given). -/
+theorem befp_complete {H : HashFn} (hk : HashOK H) (C : Codec) {ver : Nat} {X : List Bytes} {e : Eds}
+    (hnew : edsNew ver X = .ok e) {dah : Dah} (hd : Dah.ofEds H e = .ok dah) (p : Befp) (hh : Nat)
+    (hp : HonestProof H e p hh) (hcap : e.width ≤ 256)
+    (hnc : ¬ IsCodeword C.enc (e.width / 2) (axisData e X p.axis p.index))
+    (hencsz : ∀ l, (∀ s ∈ l, 64 ≤ s.length) → ∀ s ∈ C.enc l, NS_SIZE ≤ s.length)
+    (hreclen : ∀ l, (C.recon l).length = l.length) :
+    validate H C p hh dah = .ok () := by
+  have hn := edsNew_ok hnew
+  obtain ⟨k, hv⟩ := validSquare_of_newOK hn
+  obtain ⟨hrl, hcl, _, _⟩ := Lumina.Proofs.Eds.dah_ofEds_roots hd
+  have hvs := verifyShares_honest hk.hlen hv hd hp.index p.shares 0 (by rw [hp.len]; omega)
+    (fun m s hm => by rw [Nat.zero_add]; exact hp.honest m s hm)
+  have hce := checkEncoding_noncodeword hk C hn hd p.axis hp.index (rebuiltOf p.shares)
+    (by simp [rebuiltOf, hp.len]) hnc hencsz hreclen
+  unfold validate validateWith
+  simp only [hrl]
+  have c1 : ¬ hh ≠ p.height := by simp [hp.height]
+  have c2 : ¬ e.width ≠ dah.colRoots.length := by simp [hcl]
+  have c3 : ¬ e.width > 65535 := by omega
+  have c4 : ¬ p.index ≥ e.width := by have := hp.index; omega
+  have c5 : ¬ p.shares.length ≠ e.width := by simp [hp.len]
+  have c6 : ¬ (p.shares.filter Option.isSome).length < e.width / 2 := by have := hp.count; omega
+  have c7 : (Flags.fixed.capGuard && decide (e.width > LEOPARD_ORDER)) = false := by
+    simp [LEOPARD_ORDER]; omega
+  simp only [c1, c2, c3, c4, c5, c6, c7, ↓reduceIte, Bool.false_eq_true, hvs, hce]
 
 end Lumina.Props.C07
